@@ -337,6 +337,15 @@ impl Prop for IndexOnly {
             }
         }
         ensure!(r.read_nth_shape(n).is_none(), "nth-out-of-range", "read_nth_shape({}) returns something", n);
+        // iteration after random access (the last one was at index 0) still follows the index
+        let (items, over) = drain_capped(r.iter_shapes(), n + 2);
+        ensure!(!over && items.len() == n, "count", "iteration after random access yields {} items for {} index entries", items.len(), n);
+        for (i, it) in items.iter().enumerate() {
+            match it {
+                Ok(s) => ensure!(view_shape(s) == seq[i], "nth-vs-iteration", "iteration after random access: item {} differs from index entry {}", i, i),
+                Err(e) => fail!("valid-record-rejected", "iteration after random access: index entry {}: {}", i, err_str(e)),
+            }
+        }
         Ok(())
     }
 }
